@@ -275,7 +275,8 @@ class Stream:
                     self._t_target = self._t_supply + 0.01
                     self._set_cold_stream_min_max_temperatures()
                 elif self._heat_flow < 0.0:
-                    # Hot stream
+                    # Hot stream: the sign only gives the direction, the duty is its magnitude
+                    self._heat_flow = -self._heat_flow
                     self._t_target = self._t_supply - 0.01
                     self._set_hot_stream_min_max_temperatures()
 
